@@ -283,16 +283,18 @@ Proof. intros I. destruct I. constructor; assumption. Qed.
 
 Lemma real_pres v : pres (real v).
 Proof.
-  intros s s' r I H. unfold real in H. destruct (cache_get v (real_c s)); [inversion H; subst; auto using ext_refl|].
+  intros s s' r I H. unfold real in H.
   destruct (real_val v) as [[n d]|e] eqn:Hv; [|inversion H; subst; auto using ext_refl].
+  destruct (cache_get v (real_c s)); [inversion H; subst; auto using ext_refl|].
   unfold bind in H. destruct (create_node (ORealC n d, []) s) as [s1 [i|e]] eqn:C;
     destruct (create_node_spec _ _ _ _ I C) as (I1 & X1 & N1 & _); inversion H; subst; [|auto].
   split; [|exact X1]. eapply Inv_set_real_c; eauto.
 Qed.
 Lemma int_pres v : pres (int v).
 Proof.
-  intros s s' r I H. unfold int in H. destruct (cache_get v (int_c s)); [inversion H; subst; auto using ext_refl|].
+  intros s s' r I H. unfold int in H.
   destruct v; try (inversion H; subst; auto using ext_refl; fail).
+  destruct (cache_get (PyInt z) (int_c s)); [inversion H; subst; auto using ext_refl|].
   unfold bind in H. destruct (create_node (OIntC z, []) s) as [s1 [i|e]] eqn:C;
     destruct (create_node_spec _ _ _ _ I C) as (I1 & X1 & N1 & _); inversion H; subst; [|auto].
   split; [|exact X1]. eapply Inv_set_int_c; eauto.
@@ -568,36 +570,6 @@ Qed.
    falsifies a clause of the property: witnesses (replayed on the implementation by harness/c04.py) *)
 Definition addr_id (e : nat) (i : id) : Z := Z.of_nat i.
 
-(* the outcome of Int(1.0) depends on what was built before: it raises on a fresh manager and
-   returns the node of Int(1) once that exists (cache lookup precedes the type test) *)
-Lemma int_spelling_route_refuted :
-  exists (before1 before2 : list request) (r : request),
-    snd (step1 (addr_id 0) (run1 (addr_id 0) before1) r) = Err ETyp /\
-    snd (step1 (addr_id 0) (run1 (addr_id 0) before2) r) = Ok 3.
-Proof. exists [], [RInt (PyInt 1)], (RInt (PyFloat 1 1)). split; reflexivity. Qed.
-
-Lemma real_bool_route_refuted :
-  exists (before1 before2 : list request) (r : request),
-    snd (step1 (addr_id 0) (run1 (addr_id 0) before1) r) = Err ETyp /\
-    snd (step1 (addr_id 0) (run1 (addr_id 0) before2) r) = Ok 3.
-Proof. exists [], [RReal (PyInt 1)], (RReal (PyBool true)). split; reflexivity. Qed.
-
-(* TypeManager.normalize fails on a parametric custom sort below the root of a type *)
-Lemma tnorm_nested_refuted :
-  tnorm (TUser "P" [TUser "Q" [TInt]]) = None /\ tnorm (TArr TInt (TUser "P" [TInt])) = None /\
-  tnorm (TFun [TUser "P" [TInt]] TInt) = None /\ tnorm (TUser "P" [TInt]) = Some (TUser "P" [TInt]).
-Proof. repeat split; reflexivity. Qed.
-
-(* ... hence normalize does not always produce a copy: a symbol of such a sort, created through
-   the public constructor in environment 0, cannot be re-created in the fresh environment 1 *)
-Lemma normalize_total_refuted :
-  exists (h : list (nat * request)) (i : id),
-    let '(w, rps) := wrun addr_id (winit 2) h in
-    nth_error rps 0 = Some (Ok i) /\ nth_error rps 1 = Some (Err EOth).
-Proof.
-  exists [(0, RSymbol "x" (TUser "P" [TUser "Q" [TInt]])); (1, RNormalize 0 3)], 3. vm_compute. split; reflexivity.
-Qed.
-
 (* the copy of an array value may list the assignments in another order (Array sorts by id()) *)
 Lemma normalize_copy_array_order_refuted :
   exists (h : list (nat * request)) (i j : id),
@@ -626,17 +598,43 @@ Proof.
   - intros H. destruct (IH H) as (k'' & Hin & He). eauto.
 Qed.
 
+Lemma tcheck_leaf tb i o : wf_tb tb -> node_tb tb i = Some (o, []) ->
+  tcheck tb i = match tc_rule o [] with Some _ => Ok i | None => Err ETyp end.
+Proof. intros W H. unfold tcheck. rewrite (unfold_eq _ _ _ _ W H). reflexivity. Qed.
+
+(* creating a well-typed leaf always succeeds *)
+Lemma create_leaf s o : Inv s -> tc_rule o [] <> None ->
+  exists s' i, create_node (o, []) s = (s', Ok i) /\ Inv s' /\ ext s s' /\ node s' i = Some (o, []).
+Proof.
+  intros I T. destruct (create_node (o, []) s) as [s' r] eqn:C.
+  destruct (create_node_spec _ _ _ _ I C) as (I' & X & N1 & E & F).
+  destruct (find_index (o, []) (table s) 1) as [i|] eqn:Fi.
+  - apply find_index_some in Fi. destruct Fi as [F1 F2].
+    assert (Ni : node s i = Some (o, [])).
+    { unfold node. destruct i as [|k]; [lia|]. cbn. replace (S k - 1) with k in F2 by lia. exact F2. }
+    destruct (E i Ni) as [-> ->]. exists s, i. rewrite (tcheck_leaf _ _ _ (inv_wf _ I) Ni).
+    destruct (tc_rule o []); [auto|congruence].
+  - apply find_index_none in Fi. destruct (F Fi (Forall_nil _)) as [Ht ->].
+    assert (Ni : node s' (next_id s) = Some (o, [])).
+    { unfold node. rewrite Ht, (inv_next _ I). cbn. rewrite nth_error_app2 by lia. now rewrite Nat.sub_diag. }
+    exists s', (next_id s). rewrite (tcheck_leaf _ _ _ (inv_wf _ I') Ni).
+    destruct (tc_rule o []); [auto|congruence].
+Qed.
+
+Lemma unfold_leaf s i o : Inv s -> node s i = Some (o, []) -> unfold s i = T o [].
+Proof. intros I H. unfold unfold. rewrite (unfold_eq _ _ _ _ (inv_wf _ I) H). reflexivity. Qed.
+
 Lemma int_node s v s' i : Inv s -> int v s = (s', Ok i) ->
-  Inv s' /\ ext s s' /\ exists z, py_eqb v (PyInt z) = true /\ node s' i = Some (OIntC z, []).
+  Inv s' /\ ext s s' /\ exists z, v = PyInt z /\ node s' i = Some (OIntC z, []).
 Proof.
   intros I H. destruct (int_pres v _ _ _ I H) as [I' X]. split; [exact I'|]. split; [exact X|].
-  unfold int in H. destruct (cache_get v (int_c s)) as [j|] eqn:C.
+  unfold int in H. destruct v; try discriminate. exists z. split; [reflexivity|].
+  destruct (cache_get (PyInt z) (int_c s)) as [j|] eqn:C.
   - inversion H; subst. destruct (cache_get_in _ _ _ C) as (k' & Hin & He).
-    destruct (inv_int _ I _ _ Hin) as (z & -> & Hn). eauto.
-  - destruct v; try discriminate. unfold bind in H.
-    destruct (create_node (OIntC z, []) s) as [s1 [j|e]] eqn:Cn; [|discriminate].
-    destruct (create_node_spec _ _ _ _ I Cn) as (_ & _ & N1 & _). inversion H; subst.
-    exists z. split; [cbn; apply Z.eqb_refl|]. apply (N1 i eq_refl).
+    destruct (inv_int _ I _ _ Hin) as (z' & -> & Hn). cbn in He. apply Z.eqb_eq in He.
+    assert (z' = z) by lia. subst. exact Hn.
+  - unfold bind in H. destruct (create_node (OIntC z, []) s) as [s1 [j|e]] eqn:Cn; [|discriminate].
+    destruct (create_node_spec _ _ _ _ I Cn) as (_ & _ & N1 & _). inversion H; subst. apply (N1 i eq_refl).
 Qed.
 
 (* Int(z1) and Int(z2) are the same object exactly when z1 = z2, wherever in a history they occur *)
@@ -646,10 +644,31 @@ Proof.
   intros R H1 H2. apply reachable_inv in R.
   destruct (int_node _ _ _ _ R H1) as (I1 & X1 & z1' & E1 & N1).
   destruct (int_node _ _ _ _ I1 H2) as (I2 & X2 & z2' & E2 & N2).
-  cbn in E1, E2. apply Z.eqb_eq in E1, E2. assert (z1' = z1) by lia. assert (z2' = z2) by lia. subst.
+  inversion E1; inversion E2; subst.
   pose proof (node_ext _ _ _ _ X2 N1) as N1'. split.
   - intros ->. rewrite N1' in N2. inversion N2. reflexivity.
   - intros ->. eapply node_inj; eauto.
+Qed.
+
+(* route independence of the Int spellings (after commit 7843d1b): whether Int(v) raises, and
+   the tree of the node it returns, are functions of v alone - whatever the history *)
+Definition int_spec (v : pyval) : res term :=
+  match v with PyInt z => Ok (TIntC z) | _ => Err ETyp end.
+Theorem int_route_indep s v : reachable s ->
+  match int_spec v with
+  | Ok t => exists s' i, int v s = (s', Ok i) /\ valid (table s') i /\ unfold s' i = t
+  | Err e => int v s = (s, Err e)
+  end.
+Proof.
+  intros R. apply reachable_inv in R. destruct v; cbn [int_spec]; try reflexivity.
+  unfold int. destruct (cache_get (PyInt z) (int_c s)) as [j|] eqn:C.
+  - destruct (cache_get_in _ _ _ C) as (k' & Hin & He).
+    destruct (inv_int _ R _ _ Hin) as (z' & -> & Hn). cbn in He. apply Z.eqb_eq in He.
+    assert (z' = z) by lia. subst. exists s, j. split; [reflexivity|]. split; [eapply node_tb_valid; eauto|].
+    apply unfold_leaf; auto.
+  - destruct (create_leaf s (OIntC z) R) as (s1 & i & Cn & I1 & X1 & N1); [cbn; discriminate|].
+    unfold bind. rewrite Cn. eexists _, i. split; [reflexivity|]. cbn [table set_int_c].
+    split; [eapply node_tb_valid; eauto|]. apply (unfold_leaf s1); auto.
 Qed.
 
 Lemma str_node s v s' i : Inv s -> str v s = (s', Ok i) ->
@@ -676,16 +695,8 @@ Proof.
   - intros ->. eapply node_inj; eauto.
 Qed.
 
-(* Real: int / Fraction / float / pair spellings.  A spelling is well formed when it is a value
-   Python can hold: Fractions and (finite) floats are normalised, a pair has a non-zero second
-   component. *)
-Definition wf_spelling (v : pyval) : Prop :=
-  match v with
-  | PyInt _ => True
-  | PyFrac n d | PyFloat n d => Z.gcd n d = 1%Z /\ (0 < d)%Z
-  | PyPair _ d => d <> 0%Z
-  | PyBool _ | PyStr _ => False
-  end.
+(* Real: int / Fraction / float / pair spellings.  [real_val v = Ok q]: v is an accepted spelling
+   and q the Fraction the constructor computes from it. *)
 Definition qeq (a b : Z * Z) : Prop := (fst a * snd b = fst b * snd a)%Z.
 Definition qnf (a : Z * Z) : Prop := Z.gcd (fst a) (snd a) = 1%Z /\ (0 < snd a)%Z.
 
@@ -719,62 +730,52 @@ Proof.
   - split; [split; [exact Gab|lia]|]. rewrite Ha, Hb. ring.
 Qed.
 
-Lemma real_val_qnf v n d : wf_spelling v -> real_val v = Ok (n, d) -> qnf (n, d).
+Lemma frac_ok_qnf n d : frac_ok n d = true -> qnf (n, d).
+Proof. unfold frac_ok, qnf. rewrite andb_true_iff, Z.eqb_eq, Z.ltb_lt. auto. Qed.
+
+Lemma real_val_qnf v n d : real_val v = Ok (n, d) -> qnf (n, d).
 Proof.
-  destruct v; cbn; try contradiction.
-  - intros _ H. inversion H; subst. unfold qnf. cbn. rewrite Z.gcd_1_r. lia.
-  - intros W H. inversion H; subst. exact W.
-  - intros W H. inversion H; subst. exact W.
-  - intros W H. destruct (d0 =? 0)%Z; [discriminate|]. inversion H. apply fr_norm_qnf; exact W.
+  destruct v; cbn; try discriminate.
+  - intros H. inversion H; subst. unfold qnf. cbn. rewrite Z.gcd_1_r. lia.
+  - destruct (frac_ok n0 d0) eqn:F; [|discriminate]. intros H. inversion H; subst. apply frac_ok_qnf; exact F.
+  - destruct (frac_ok n0 d0) eqn:F; [|discriminate]. intros H. inversion H; subst. apply frac_ok_qnf; exact F.
+  - destruct (d0 =? 0)%Z eqn:E; [discriminate|]. intros H. inversion H. apply fr_norm_qnf. apply Z.eqb_neq; exact E.
 Qed.
 
 (* equal cache keys denote the same rational *)
-Lemma py_eqb_real_val v v' a b : wf_spelling v -> wf_spelling v' -> py_eqb v v' = true ->
-  real_val v = Ok a -> real_val v' = Ok b -> a = b.
+Lemma py_eqb_real_val v v' a b : py_eqb v v' = true -> real_val v = Ok a -> real_val v' = Ok b -> a = b.
 Proof.
-  intros W W' E Ha Hb.
+  intros E Ha Hb.
   assert (Qa : qnf a) by (destruct a as [n d]; apply (real_val_qnf v); assumption).
   assert (Qb : qnf b) by (destruct b as [n d]; apply (real_val_qnf v'); assumption).
-  apply qnf_unique; auto.
-  destruct v, v'; cbn in W, W', E, Ha, Hb; try contradiction; try discriminate;
-    try (inversion Ha; inversion Hb; subst; unfold qeq; cbn [fst snd] in *; apply Z.eqb_eq in E; lia).
-  apply andb_true_iff in E. destruct E as [E1 E2]. apply Z.eqb_eq in E1, E2. subst. congruence.
+  destruct v, v'; cbn in E, Ha, Hb; try discriminate;
+    try (apply andb_true_iff in E; destruct E as [E1 E2]; apply Z.eqb_eq in E1, E2; subst; congruence);
+    repeat match goal with
+           | H : (if ?c then Ok _ else Err _) = Ok _ |- _ => destruct c; [|discriminate]
+           end;
+    apply qnf_unique; auto; inversion Ha; inversion Hb; subst; unfold qeq; cbn [fst snd] in *; apply Z.eqb_eq in E; lia.
 Qed.
 
-Lemma create_node_real_c c s s' r : create_node c s = (s', r) -> real_c s' = real_c s.
+Lemma real_node s v s' i : Inv s -> real v s = (s', Ok i) ->
+  Inv s' /\ ext s s' /\ exists n d, real_val v = Ok (n, d) /\ node s' i = Some (ORealC n d, []).
 Proof.
-  unfold create_node. destruct (negb (forallb (valid_tb (table s)) (snd c))); [intros H; inversion H; reflexivity|].
-  destruct (find_index c (table s) 1); intros H; inversion H; reflexivity.
-Qed.
-
-Definition wf_keys (s : state) : Prop := forall v i, In (v, i) (real_c s) -> wf_spelling v.
-
-Lemma real_node s v s' i : Inv s -> wf_keys s -> wf_spelling v -> real v s = (s', Ok i) ->
-  Inv s' /\ ext s s' /\ wf_keys s' /\ exists n d, real_val v = Ok (n, d) /\ node s' i = Some (ORealC n d, []).
-Proof.
-  intros I K W H. destruct (real_pres v _ _ _ I H) as [I' X]. split; [exact I'|]. split; [exact X|].
-  unfold real in H. destruct (cache_get v (real_c s)) as [j|] eqn:C.
-  - inversion H; subst. split; [exact K|]. destruct (cache_get_in _ _ _ C) as (k' & Hin & He).
-    destruct (inv_real _ I _ _ Hin) as (n & d & Hv & Hn).
-    destruct (real_val v) as [[n' d']|e] eqn:Hv'.
-    + assert (Heq : (n', d') = (n, d)) by (apply (py_eqb_real_val v k'); auto; eapply K; eauto). inversion Heq; subst. eauto.
-    + exfalso. destruct v; cbn in W, Hv'; try contradiction; try discriminate.
-      destruct (d0 =? 0)%Z eqn:E0; [apply Z.eqb_eq in E0; contradiction|discriminate].
-  - destruct (real_val v) as [[n d]|e] eqn:Hv; [|discriminate]. unfold bind in H.
-    destruct (create_node (ORealC n d, []) s) as [s1 [j|e]] eqn:Cn; [|discriminate].
-    destruct (create_node_spec _ _ _ _ I Cn) as (_ & _ & N1 & _). inversion H; subst. split.
-    + intros v' i' E. cbn [real_c set_real_c] in E. destruct E as [E|E]; [inversion E; subst; exact W|].
-      rewrite (create_node_real_c _ _ _ _ Cn) in E. eapply K; eauto.
-    + exists n, d. split; [reflexivity|]. apply (N1 i eq_refl).
+  intros I H. destruct (real_pres v _ _ _ I H) as [I' X]. split; [exact I'|]. split; [exact X|].
+  unfold real in H. destruct (real_val v) as [[n d]|e] eqn:Hv; [|discriminate]. exists n, d. split; [reflexivity|].
+  destruct (cache_get v (real_c s)) as [j|] eqn:C.
+  - inversion H; subst. destruct (cache_get_in _ _ _ C) as (k' & Hin & He).
+    destruct (inv_real _ I _ _ Hin) as (n' & d' & Hv' & Hn).
+    assert (Heq : (n, d) = (n', d')) by (apply (py_eqb_real_val v k'); auto). inversion Heq; subst. exact Hn.
+  - unfold bind in H. destruct (create_node (ORealC n d, []) s) as [s1 [j|e]] eqn:Cn; [|discriminate].
+    destruct (create_node_spec _ _ _ _ I Cn) as (_ & _ & N1 & _). inversion H; subst. apply (N1 i eq_refl).
 Qed.
 
 (* two spellings of a Real constant are the same object exactly when they denote the same rational *)
-Theorem real_spelling s v1 v2 s1 s2 i1 i2 : reachable s -> wf_keys s -> wf_spelling v1 -> wf_spelling v2 ->
+Theorem real_spelling s v1 v2 s1 s2 i1 i2 : reachable s ->
   real v1 s = (s1, Ok i1) -> real v2 s1 = (s2, Ok i2) -> (i1 = i2 <-> real_val v1 = real_val v2).
 Proof.
-  intros R K W1 W2 H1 H2. apply reachable_inv in R.
-  destruct (real_node _ _ _ _ R K W1 H1) as (I1 & X1 & K1 & n1 & d1 & E1 & N1).
-  destruct (real_node _ _ _ _ I1 K1 W2 H2) as (I2 & X2 & K2 & n2 & d2 & E2 & N2).
+  intros R H1 H2. apply reachable_inv in R.
+  destruct (real_node _ _ _ _ R H1) as (I1 & X1 & n1 & d1 & E1 & N1).
+  destruct (real_node _ _ _ _ I1 H2) as (I2 & X2 & n2 & d2 & E2 & N2).
   pose proof (node_ext _ _ _ _ X2 N1) as N1'. rewrite E1, E2. split.
   - intros ->. rewrite N1' in N2. inversion N2. reflexivity.
   - intros E. inversion E; subst. eapply node_inj; eauto.
@@ -782,8 +783,37 @@ Qed.
 Example real_spelling_example :
   let s1 := fst (real (PyPair 2 4) init) in
   real (PyPair 2 4) init = (s1, Ok 3) /\ real (PyFloat 1 2) s1 = (fst (real (PyFloat 1 2) s1), Ok 3) /\
-  snd (real (PyInt 1) s1) = Ok 4 /\ wf_keys init /\ wf_spelling (PyPair 2 4) /\ wf_spelling (PyFloat 1 2).
-Proof. vm_compute. repeat split; try discriminate. intros ? ? []. Qed.
+  snd (real (PyInt 1) s1) = Ok 4 /\ snd (real (PyBool true) s1) = Err ETyp.
+Proof. vm_compute. repeat split. Qed.
+
+(* route independence of the Real spellings (after commit 7843d1b) *)
+Definition real_spec (v : pyval) : res term :=
+  match real_val v with Ok (n, d) => Ok (TRealC n d) | Err e => Err e end.
+Theorem real_route_indep s v : reachable s ->
+  match real_spec v with
+  | Ok t => exists s' i, real v s = (s', Ok i) /\ valid (table s') i /\ unfold s' i = t
+  | Err e => real v s = (s, Err e)
+  end.
+Proof.
+  intros R. apply reachable_inv in R. unfold real_spec, real.
+  destruct (real_val v) as [[n d]|e] eqn:Hv; [|reflexivity].
+  destruct (cache_get v (real_c s)) as [j|] eqn:C.
+  - destruct (cache_get_in _ _ _ C) as (k' & Hin & He).
+    destruct (inv_real _ R _ _ Hin) as (n' & d' & Hv' & Hn).
+    assert (Heq : (n, d) = (n', d')) by (apply (py_eqb_real_val v k'); auto). inversion Heq; subst.
+    exists s, j. split; [reflexivity|]. split; [eapply node_tb_valid; eauto|]. apply unfold_leaf; auto.
+  - destruct (create_leaf s (ORealC n d) R) as (s1 & i & Cn & I1 & X1 & N1); [cbn; discriminate|].
+    unfold bind. rewrite Cn. eexists _, i. split; [reflexivity|]. cbn [table set_real_c].
+    split; [eapply node_tb_valid; eauto|]. apply (unfold_leaf s1); auto.
+Qed.
+(* the former witnesses: Int(1.0), Int(True), Real(True) now raise whatever is cached *)
+Example spelling_route_examples :
+  snd (step1 (addr_id 0) (run1 (addr_id 0) [RInt (PyInt 1)]) (RInt (PyFloat 1 1))) = Err ETyp /\
+  snd (step1 (addr_id 0) (run1 (addr_id 0) []) (RInt (PyFloat 1 1))) = Err ETyp /\
+  snd (step1 (addr_id 0) (run1 (addr_id 0) [RInt (PyInt 1)]) (RInt (PyBool true))) = Err ETyp /\
+  snd (step1 (addr_id 0) (run1 (addr_id 0) [RReal (PyInt 1)]) (RReal (PyBool true))) = Err ETyp /\
+  snd (step1 (addr_id 0) (run1 (addr_id 0) [RReal (PyInt 1)]) (RReal (PyFloat 1 1))) = Ok 3.
+Proof. vm_compute. repeat split. Qed.
 
 (* bit-vector constants: int and "#b..." / "..." spellings *)
 Definition bv_den (v : bvspell) (w : option Z) : option (Z * Z) :=
@@ -916,3 +946,422 @@ Example array_canonical_example :
   array_args (addr_id 0) 5 [(3, 4); (4, 5); (6, 3)] = array_args (addr_id 0) 5 [(6, 3); (3, 4)] /\
   array_args (addr_id 0) 5 [(3, 4); (3, 6)] = [5; 3; 6].
 Proof. split; reflexivity. Qed.
+
+(* ------------------------------------------------------------------ cross-environment copy
+   (FormulaContextualizer after commit 3ff3f2b) *)
+Theorem tnorm_total t : tnorm t = Some t.
+Proof. reflexivity. Qed.
+
+Lemma exec_rets a s : exec_list (map PRet a) s = (s, Ok a).
+Proof.
+  induction a as [|x r IH]; [reflexivity|].
+  change (exec_list (map PRet (x :: r)) s) with
+    (bind (exec (PRet x)) (fun i => bind (exec_list (map PRet r)) (fun js => ret (i :: js))) s).
+  unfold bind at 1. change (exec (PRet x) s) with (s, Ok x). cbn iota. unfold bind. rewrite IH. reflexivity.
+Qed.
+Lemma exec_node_rets o a s : exec (PNode o (map PRet a)) s = create_node (o, a) s.
+Proof. rewrite exec_node. unfold bind. rewrite exec_rets. reflexivity. Qed.
+Lemma ctor_call_node c a zs o a' s :
+  i_plan (table s) c a zs = PNode o (map PRet a') -> ctor_call c a zs s = create_node (o, a') s.
+Proof. intros E. unfold ctor_call. rewrite E. apply exec_node_rets. Qed.
+Lemma ctor_call_ret c a zs x s : i_plan (table s) c a zs = PRet x -> ctor_call c a zs s = (s, Ok x).
+Proof. intros E. unfold ctor_call. rewrite E. reflexivity. Qed.
+Lemma ctor_call_err c a zs e s : i_plan (table s) c a zs = PErr e -> ctor_call c a zs s = (s, Err e).
+Proof. intros E. unfold ctor_call. rewrite E. reflexivity. Qed.
+
+Lemma create_node_ok_valid c s s' j : create_node c s = (s', Ok j) -> Forall (valid (table s)) (snd c).
+Proof.
+  unfold create_node. destruct (forallb (valid_tb (table s)) (snd c)) eqn:V; cbn [negb]; [|discriminate].
+  intros _. apply Forall_forall. intros a Ha. apply valid_tb_iff. rewrite forallb_forall in V. auto.
+Qed.
+
+Lemma unfold_ext s s' i : Inv s -> ext s s' -> valid (table s) i -> unfold s' i = unfold s i.
+Proof. intros I [l E] V. unfold unfold. rewrite E. apply unfold_app; auto. apply (inv_wf _ I). Qed.
+Lemma valid_ext s s' i : ext s s' -> valid (table s) i -> valid (table s') i.
+Proof. intros [l E] V. rewrite E. apply valid_app; auto. Qed.
+Lemma map_unfold_ext s s' a : Inv s -> ext s s' -> Forall (valid (table s)) a ->
+  map (unfold s') a = map (unfold s) a.
+Proof.
+  intros I X V. apply map_ext_in. intros x Hx. rewrite Forall_forall in V. apply unfold_ext; auto.
+Qed.
+Lemma Forall_valid_ext s s' a : ext s s' -> Forall (valid (table s)) a -> Forall (valid (table s')) a.
+Proof. intros X V. eapply Forall_impl; [|exact V]. intros x. apply valid_ext; auto. Qed.
+
+(* the node create_node returns stands for the operator applied to the trees of the children *)
+Lemma finish_node o a ts s s' j : Inv s -> map (unfold s) a = ts -> create_node (o, a) s = (s', Ok j) ->
+  Inv s' /\ ext s s' /\ valid (table s') j /\ unfold s' j = T o ts.
+Proof.
+  intros I Hm C. destruct (create_node_spec _ _ _ _ I C) as (I' & X & N1 & _).
+  specialize (N1 j eq_refl). split; [exact I'|]. split; [exact X|]. split; [eapply node_tb_valid; eauto|].
+  unfold unfold at 1. rewrite (unfold_eq _ _ _ _ (inv_wf _ I') N1). f_equal.
+  rewrite <- Hm. apply (map_unfold_ext s s'); auto. apply (create_node_ok_valid _ _ _ _ C).
+Qed.
+
+Lemma sym_get_in n l i : sym_get n l = Some i -> In (n, i) l.
+Proof.
+  induction l as [|[n' i'] r IH]; cbn; [discriminate|]. destruct (String.eqb n n') eqn:E.
+  - intros H. inversion H; subst. apply String.eqb_eq in E. subst. now left.
+  - intros H. right. auto.
+Qed.
+Lemma symbol_node n t s s' i : Inv s -> symbol n t s = (s', Ok i) ->
+  Inv s' /\ ext s s' /\ node s' i = Some (OSymbol n t, []).
+Proof.
+  intros I H. destruct (symbol_pres n t _ _ _ I H) as [I' X]. split; [exact I'|]. split; [exact X|].
+  unfold symbol in H. destruct (sym_get n (symbols s)) as [i0|] eqn:G.
+  - apply sym_get_in in G. destruct (inv_sym _ I _ _ G) as [t' Ht'].
+    assert (O : i_op (table s) i0 = OSymbol n t') by (unfold i_op; fold (unfold s i0); rewrite (unfold_leaf _ _ _ I Ht'); reflexivity).
+    rewrite O in H. destruct (ty_eqb t' t) eqn:E; inversion H; subst. apply ty_eqb_eq in E. subst. exact Ht'.
+  - destruct (String.eqb n ""); [discriminate|]. unfold bind in H.
+    destruct (create_node (OSymbol n t, []) s) as [s1 [j|e]] eqn:Cn; [|discriminate].
+    destruct (create_node_spec _ _ _ _ I Cn) as (_ & _ & N1 & _). inversion H; subst. apply (N1 i eq_refl).
+Qed.
+
+Lemma norm_vars_spec vs : forall s s' qs, Inv s -> norm_vars vs s = (s', Ok qs) ->
+  Inv s' /\ ext s s' /\ Forall2 (fun q v => node s' q = Some (OSymbol (fst v) (snd v), [])) qs vs.
+Proof.
+  induction vs as [|[n t] r IH]; intros s s' qs I H.
+  - inversion H; subst. split; [auto|]. split; [apply ext_refl|constructor].
+  - cbn [norm_vars] in H. unfold bind in H.
+    destruct (norm_symbol n t s) as [s1 [i|e]] eqn:A; [|discriminate].
+    destruct (norm_vars r s1) as [s2 [js|e]] eqn:B; [|discriminate]. inversion H; subst.
+    destruct (symbol_node _ _ _ _ _ I A) as (I1 & X1 & N1).
+    destruct (IH _ _ _ I1 B) as (I2 & X2 & F2).
+    split; [exact I2|]. split; [eapply ext_trans; eauto|]. constructor; [|exact F2].
+    cbn. eapply node_ext; eauto.
+Qed.
+Lemma sym_vars_nodes s qs vs : Inv s ->
+  Forall2 (fun q v => node s q = Some (OSymbol (fst v) (snd v), [])) qs vs ->
+  sym_vars (i_op (table s)) qs = Some vs.
+Proof.
+  intros I F. induction F as [|q [n t] qs' vs' Hq F IH]; [reflexivity|].
+  cbn [sym_vars]. unfold i_op at 1. fold (unfold s q). rewrite (unfold_leaf _ _ _ I Hq). cbn [top fst snd].
+  rewrite IH. reflexivity.
+Qed.
+
+(* ---- the formulas the public constructors build: every node is a fixed point of the
+        normalisation its constructor performs (children given as trees) *)
+Definition is_not_op (o : op) : bool := match o with ONot => true | _ => false end.
+Definition is_intc_op (o : op) : bool := match o with OIntC _ => true | _ => false end.
+Definition bvw_is (t : term) (w : Z) : bool :=
+  match t_bvw t with Some w' => (w' =? w)%Z | None => false end.
+Definition div_ok (t : term) : bool :=
+  match top t with ORealC n _ => (n =? 0)%Z | OArrayValue _ => negb (t_const t) | _ => true end.
+Definition nf_nodeb (o : op) (ts : list term) : bool :=
+  match o with
+  | OSymbol _ _ | OIntC _ | OBoolC _ | OStrC _ | OBVC _ _ => match ts with [] => true | _ => false end
+  | ORealC n d => match ts with [] => frac_ok n d | _ => false end
+  | OFunction _ _ => match ts with [] => false | _ => true end
+  | OAnd | OOr | OPlus | OTimes => match ts with _ :: _ :: _ => true | _ => false end
+  | ONot => match ts with [x] => negb (is_not_op (top x)) | _ => false end
+  | OToReal => match ts with
+               | [x] => match tc x with Some TInt => negb (is_intc_op (top x)) | _ => false end
+               | _ => false
+               end
+  | OImplies | OIff | OEquals | OLe | OLt | OMinus | OSelect | OBVRel _ =>
+      match ts with [_; _] => true | _ => false end
+  | ODiv => match ts with [_; y] => div_ok y | _ => false end
+  | OPow => match ts with [x; _] => negb (t_const x) | _ => false end
+  | OIte | OStore => match ts with [_; _; _] => true | _ => false end
+  | OForall vs | OExists vs => match ts, vs with [_], _ :: _ => true | _, _ => false end
+  | OBV k w =>
+      match k with
+      | BNot | BNeg => match ts with [x] => bvw_is x w | _ => false end
+      | BConcat => match ts with
+                   | [x; y] => match t_bvw x, t_bvw y with Some a, Some b => (a + b =? w)%Z | _, _ => false end
+                   | _ => false
+                   end
+      | BComp => match ts with [_; _] => (w =? 1)%Z | _ => false end
+      | _ => match ts with [x; _] => bvw_is x w | _ => false end
+      end
+  | OBVExtract w s e => match ts with [_] => (w =? e - s + 1)%Z | _ => false end
+  | OBVRol w _ | OBVRor w _ => match ts with [x] => bvw_is x w | _ => false end
+  | OBVZext w k | OBVSext w k =>
+      match ts with
+      | [x] => match t_bvw x with Some a => (a + k =? w)%Z | None => false end
+      | _ => false
+      end
+  | OBVToNat => match ts with [_] => true | _ => false end
+  | OStr k =>
+      match k with
+      | SConcat => match ts with _ :: _ :: _ => true | _ => false end
+      | SLength | SToInt | SFromInt => match ts with [_] => true | _ => false end
+      | SContains | SPrefixOf | SSuffixOf | SCharAt => match ts with [_; _] => true | _ => false end
+      | SIndexOf | SReplace | SSubstr => match ts with [_; _; _] => true | _ => false end
+      end
+  | OArrayValue _ => false            (* array values: see normalize_copy_array_order_refuted *)
+  end.
+Inductive copyable : term -> Prop :=
+| copyable_node o args : nf_nodeb o args = true -> Forall copyable args -> copyable (T o args).
+
+Lemma bvw_is_some t w : bvw_is t w = true -> t_bvw t = Some w.
+Proof. unfold bvw_is. destruct (t_bvw t); [|discriminate]. intros H. apply Z.eqb_eq in H. now subst. Qed.
+
+Definition copy_ok (s s' : state) (j : id) (t : term) : Prop :=
+  Inv s' /\ ext s s' /\ valid (table s') j /\ unfold s' j = t.
+
+Lemma leaf_ok s s' j o : Inv s' -> ext s s' -> node s' j = Some (o, []) -> copy_ok s s' j (T o []).
+Proof.
+  intros I X N. split; [exact I|]. split; [exact X|]. split; [eapply node_tb_valid; eauto|]. apply unfold_leaf; auto.
+Qed.
+Lemma finish_ok o a s s' j : Inv s -> create_node (o, a) s = (s', Ok j) -> copy_ok s s' j (T o (map (unfold s) a)).
+Proof. intros I C. eapply finish_node; eauto. Qed.
+Lemma finish_via o a s s1 s' j : Inv s -> Inv s1 -> ext s s1 -> Forall (valid (table s)) a ->
+  create_node (o, a) s1 = (s', Ok j) -> copy_ok s s' j (T o (map (unfold s) a)).
+Proof.
+  intros I I1 X V C. destruct (finish_ok _ _ _ _ _ I1 C) as (I' & X' & Vj & U).
+  split; [exact I'|]. split; [eapply ext_trans; eauto|]. split; [exact Vj|].
+  rewrite U. f_equal. apply map_unfold_ext; auto.
+Qed.
+
+Ltac use_node o' a' tac :=
+  match goal with
+  | H : ctor_call ?c ?a ?zs ?s = _ |- _ =>
+      rewrite (ctor_call_node c a zs o' a' s) in H; [apply finish_ok; assumption | tac]
+  end.
+Ltac use_err e tac :=
+  match goal with
+  | H : ctor_call ?c ?a ?zs ?s = _ |- _ =>
+      rewrite (ctor_call_err c a zs e s) in H; [discriminate H | tac]
+  end.
+Ltac plain :=
+  match goal with
+  | H : ctor_call (CNode ?o) ?a [] ?s = _ |- _ => use_node o a ltac:(reflexivity)
+  end.
+
+(* one node: rebuilding it from copies of its children yields a copy of the node *)
+Lemma rebuild_copy addr o a s s' j :
+  Inv s -> Forall (valid (table s)) a -> nf_nodeb o (map (unfold s) a) = true ->
+  rebuild addr o a s = (s', Ok j) -> copy_ok s s' j (T o (map (unfold s) a)).
+Proof.
+  intros I V N H. unfold unfold in N.
+  destruct o; destruct a as [|c1 [|c2 [|c3 cr]]]; cbn [map nf_nodeb] in N; try discriminate N;
+    try (destruct cr as [|c4 cr]; [|cbn [map] in N; discriminate N]);
+    cbn [rebuild take1 take2 take3] in H; try plain.
+  - (* OForall *)
+    destruct vs as [|v0 vr]; [discriminate N|]. unfold bind in H.
+    destruct (norm_vars (v0 :: vr) s) as [s1 [qs|e]] eqn:A; [|discriminate].
+    destruct (norm_vars_spec _ _ _ _ I A) as (I1 & X1 & F).
+    pose proof (sym_vars_nodes _ _ _ I1 F) as SV. inversion F as [|q v qr vr' Hq Fr]; subst.
+    rewrite (ctor_call_node (CQuant true) (c1 :: q :: qr) [] (OForall (v0 :: vr)) [c1] s1) in H.
+    + apply (finish_via _ [c1] s s1); auto.
+    + unfold i_plan, ctor_plan. rewrite SV. reflexivity.
+  - (* OExists *)
+    destruct vs as [|v0 vr]; [discriminate N|]. unfold bind in H.
+    destruct (norm_vars (v0 :: vr) s) as [s1 [qs|e]] eqn:A; [|discriminate].
+    destruct (norm_vars_spec _ _ _ _ I A) as (I1 & X1 & F).
+    pose proof (sym_vars_nodes _ _ _ I1 F) as SV. inversion F as [|q v qr vr' Hq Fr]; subst.
+    rewrite (ctor_call_node (CQuant false) (c1 :: q :: qr) [] (OExists (v0 :: vr)) [c1] s1) in H.
+    + apply (finish_via _ [c1] s s1); auto.
+    + unfold i_plan, ctor_plan. rewrite SV. reflexivity.
+  - (* OAnd, two children *) use_node OAnd [c1; c2] ltac:(reflexivity).
+  - use_node OAnd (c1 :: c2 :: c3 :: cr) ltac:(reflexivity).
+  - use_node OOr [c1; c2] ltac:(reflexivity).
+  - use_node OOr (c1 :: c2 :: c3 :: cr) ltac:(reflexivity).
+  - (* ONot *)
+    use_node ONot [c1] ltac:(unfold i_plan, ctor_plan, i_op; destruct (top (unfold_tb (table s) c1)); try discriminate N; reflexivity).
+  - (* OSymbol *)
+    change (symbol n t s = (s', Ok j)) in H. destruct (symbol_node _ _ _ _ _ I H) as (I' & X & Nd). apply leaf_ok; auto.
+  - (* OFunction, one parameter *)
+    unfold bind in H. destruct (norm_symbol n t s) as [s1 [f|e]] eqn:A; [|discriminate].
+    change (symbol n t s = (s1, Ok f)) in A. destruct (symbol_node _ _ _ _ _ I A) as (I1 & X1 & Nf).
+    assert (O : i_op (table s1) f = OSymbol n t) by (unfold i_op; fold (unfold s1 f); rewrite (unfold_leaf _ _ _ I1 Nf); reflexivity).
+    destruct t as [| | | | | |ps r|]; try (use_err EOth ltac:(unfold i_plan, ctor_plan; rewrite O; reflexivity)).
+    destruct (Nat.eqb (List.length ps) (List.length [c1])) eqn:L.
+    + rewrite (ctor_call_node CFunction [f; c1] [] (OFunction n (TFun ps r)) [c1] s1) in H.
+      * apply (finish_via _ [c1] s s1); auto.
+      * unfold i_plan, ctor_plan. rewrite O, L. reflexivity.
+    + use_err EVal ltac:(unfold i_plan, ctor_plan; rewrite O, L; reflexivity).
+  - (* OFunction, two parameters *)
+    unfold bind in H. destruct (norm_symbol n t s) as [s1 [f|e]] eqn:A; [|discriminate].
+    change (symbol n t s = (s1, Ok f)) in A. destruct (symbol_node _ _ _ _ _ I A) as (I1 & X1 & Nf).
+    assert (O : i_op (table s1) f = OSymbol n t) by (unfold i_op; fold (unfold s1 f); rewrite (unfold_leaf _ _ _ I1 Nf); reflexivity).
+    destruct t as [| | | | | |ps r|]; try (use_err EOth ltac:(unfold i_plan, ctor_plan; rewrite O; reflexivity)).
+    destruct (Nat.eqb (List.length ps) (List.length [c1; c2])) eqn:L.
+    + rewrite (ctor_call_node CFunction [f; c1; c2] [] (OFunction n (TFun ps r)) [c1; c2] s1) in H.
+      * apply (finish_via _ [c1; c2] s s1); auto.
+      * unfold i_plan, ctor_plan. rewrite O, L. reflexivity.
+    + use_err EVal ltac:(unfold i_plan, ctor_plan; rewrite O, L; reflexivity).
+  - (* OFunction, three or more parameters *)
+    unfold bind in H. destruct (norm_symbol n t s) as [s1 [f|e]] eqn:A; [|discriminate].
+    change (symbol n t s = (s1, Ok f)) in A. destruct (symbol_node _ _ _ _ _ I A) as (I1 & X1 & Nf).
+    assert (O : i_op (table s1) f = OSymbol n t) by (unfold i_op; fold (unfold s1 f); rewrite (unfold_leaf _ _ _ I1 Nf); reflexivity).
+    destruct t as [| | | | | |ps r|]; try (use_err EOth ltac:(unfold i_plan, ctor_plan; rewrite O; reflexivity)).
+    destruct (Nat.eqb (List.length ps) (List.length (c1 :: c2 :: c3 :: cr))) eqn:L.
+    + rewrite (ctor_call_node CFunction (f :: c1 :: c2 :: c3 :: cr) [] (OFunction n (TFun ps r)) (c1 :: c2 :: c3 :: cr) s1) in H.
+      * apply (finish_via _ (c1 :: c2 :: c3 :: cr) s s1); auto.
+      * unfold i_plan, ctor_plan. rewrite O, L. reflexivity.
+    + use_err EVal ltac:(unfold i_plan, ctor_plan; rewrite O, L; reflexivity).
+  - (* ORealC *)
+    destruct (real_node _ _ _ _ I H) as (I' & X & n' & d' & Hv & Nd). cbn [real_val] in Hv. rewrite N in Hv.
+    inversion Hv; subst. apply leaf_ok; auto.
+  - (* OBoolC *)
+    cbn in H. inversion H; subst. apply leaf_ok; auto using ext_refl.
+    destruct b; [apply (inv_true _ I)|apply (inv_false _ I)].
+  - (* OIntC *)
+    destruct (int_node _ _ _ _ I H) as (I' & X & c3' & E & Nd). inversion E; subst. apply leaf_ok; auto.
+  - (* OStrC *)
+    destruct (str_node _ _ _ _ I H) as (I' & X & c3' & E & Nd). cbn in E. apply zs_eqb_eq in E. subst. apply leaf_ok; auto.
+  - (* OPlus *) use_node OPlus [c1; c2] ltac:(reflexivity).
+  - use_node OPlus (c1 :: c2 :: c3 :: cr) ltac:(reflexivity).
+  - use_node OTimes [c1; c2] ltac:(reflexivity).
+  - use_node OTimes (c1 :: c2 :: c3 :: cr) ltac:(reflexivity).
+  - (* OToReal *)
+    use_node OToReal [c1] ltac:(unfold i_plan, ctor_plan, i_ty, i_op;
+      destruct (tc (unfold_tb (table s) c1)) as [[]|]; try discriminate N;
+      destruct (top (unfold_tb (table s) c1)); try discriminate N; reflexivity).
+  - (* OBVC *)
+    destruct (bv_node _ _ _ _ _ I H) as (I' & X & c3' & w' & E & Nd). cbn in E. inversion E; subst. apply leaf_ok; auto.
+  - (* OBV, no child *) destruct k; discriminate N.
+  - (* OBV, one child *)
+    destruct k; cbn [nf_nodeb] in N; try discriminate N; cbn [rebuild take1 take2] in H;
+      try (apply bvw_is_some in N;
+           match goal with
+           | H : ctor_call ?c ?a [] s = _ |- _ =>
+               use_node (OBV ltac:(match c with CBvUn ?k => exact k | CBvBin ?k => exact k | CBvNary ?k => exact k end) w) a
+                 ltac:(unfold i_plan, ctor_plan, with_bw, i_bvw; rewrite N; reflexivity)
+           end).
+  - (* OBV, two children *)
+    destruct k; cbn [nf_nodeb] in N; try discriminate N; cbn [rebuild take1 take2] in H;
+      try (apply bvw_is_some in N;
+           match goal with
+           | H : ctor_call ?c ?a [] s = _ |- _ =>
+               use_node (OBV ltac:(match c with CBvUn ?k => exact k | CBvBin ?k => exact k | CBvNary ?k => exact k end) w) a
+                 ltac:(unfold i_plan, ctor_plan, with_bw, i_bvw; rewrite N; reflexivity)
+           end).
+    + (* BConcat *)
+      destruct (t_bvw (unfold_tb (table s) c1)) as [wa|] eqn:Wa; [|discriminate N].
+      destruct (t_bvw (unfold_tb (table s) c2)) as [wb|] eqn:Wb; [|discriminate N].
+      apply Z.eqb_eq in N. subst w.
+      use_node (OBV BConcat (wa + wb)%Z) [c1; c2] ltac:(unfold i_plan, ctor_plan, with_bw, i_bvw; rewrite Wa, Wb; reflexivity).
+    + (* BComp *)
+      apply Z.eqb_eq in N. subst w. use_node (OBV BComp 1%Z) [c1; c2] ltac:(reflexivity).
+  - (* OBV, three or more children *) destruct k; discriminate N.
+  - (* OBVExtract *)
+    apply Z.eqb_eq in N. subst w.
+    destruct (t_bvw (unfold_tb (table s) c1)) as [wx|] eqn:Wx.
+    + destruct ((s0 <=? e)%Z && (0 <=? s0)%Z && (e - s0 + 1 <=? wx)%Z) eqn:C.
+      * use_node (OBVExtract (e - s0 + 1)%Z s0 e) [c1] ltac:(unfold i_plan, ctor_plan, with_bw, i_bvw; rewrite Wx, C; reflexivity).
+      * use_err EOth ltac:(unfold i_plan, ctor_plan, with_bw, i_bvw; rewrite Wx, C; reflexivity).
+    + use_err EOth ltac:(unfold i_plan, ctor_plan, with_bw, i_bvw; rewrite Wx; reflexivity).
+  - (* OBVRol *)
+    apply bvw_is_some in N. use_node (OBVRol w k) [c1] ltac:(unfold i_plan, ctor_plan, with_bw, i_bvw; rewrite N; reflexivity).
+  - apply bvw_is_some in N. use_node (OBVRor w k) [c1] ltac:(unfold i_plan, ctor_plan, with_bw, i_bvw; rewrite N; reflexivity).
+  - (* OBVZext *)
+    destruct (t_bvw (unfold_tb (table s) c1)) as [wx|] eqn:Wx; [|discriminate N]. apply Z.eqb_eq in N. subst w.
+    use_node (OBVZext (wx + k)%Z k) [c1] ltac:(unfold i_plan, ctor_plan, with_bw, i_bvw; rewrite Wx; reflexivity).
+  - destruct (t_bvw (unfold_tb (table s) c1)) as [wx|] eqn:Wx; [|discriminate N]. apply Z.eqb_eq in N. subst w.
+    use_node (OBVSext (wx + k)%Z k) [c1] ltac:(unfold i_plan, ctor_plan, with_bw, i_bvw; rewrite Wx; reflexivity).
+  - (* OStr, no child *) destruct k; discriminate N.
+  - (* OStr, one child *) destruct k; try discriminate N; cbn [rebuild take1 take2 take3] in H; plain.
+  - destruct k; try discriminate N; cbn [rebuild take1 take2 take3] in H; try plain.
+    use_node (OStr SConcat) [c1; c2] ltac:(reflexivity).
+  - destruct k; cbn [map] in N; try discriminate N;
+      try (destruct cr as [|c4 cr]; [|cbn [map] in N; discriminate N]);
+      cbn [rebuild take1 take2 take3] in H; try plain.
+    use_node (OStr SConcat) (c1 :: c2 :: c3 :: cr) ltac:(reflexivity).
+  - (* ODiv *)
+    use_node ODiv [c1; c2] ltac:(unfold i_plan, ctor_plan, i_const, i_op; unfold div_ok in N;
+      destruct (t_const (unfold_tb (table s) c2)); [|reflexivity];
+      destruct (top (unfold_tb (table s) c2)); try reflexivity; try (rewrite N; reflexivity); discriminate N).
+  - (* OPow *)
+    apply negb_true_iff in N. destruct (t_const (unfold_tb (table s) c2)) eqn:Cy.
+    + use_node OPow [c1; c2] ltac:(unfold i_plan, ctor_plan, i_const; rewrite Cy, N; reflexivity).
+    + use_err EVal ltac:(unfold i_plan, ctor_plan, i_const; rewrite Cy; reflexivity).
+Qed.
+
+(* the DAG walk *)
+Lemma norm_copy addr src : wf_tb src -> forall f i s s' j, Inv s ->
+  norm_fuel f addr src i s = (s', Ok j) -> copyable (unfold_tb src i) -> copy_ok s s' j (unfold_tb src i).
+Proof.
+  intros W. induction f as [|f IH]; intros i s s' j I H C; [discriminate|].
+  rewrite norm_fuel_S in H. destruct (node_tb src i) as [[o args]|] eqn:E; [|discriminate].
+  rewrite (unfold_eq _ _ _ _ W E) in *. inversion C as [o' args' N Fc]; subst.
+  unfold bind in H. destruct (norm_list f addr src args s) as [s1 [a'|e]] eqn:L; [|discriminate].
+  assert (G : forall l s0 s1 a', Inv s0 -> Forall copyable (map (unfold_tb src) l) ->
+             norm_list f addr src l s0 = (s1, Ok a') ->
+             Inv s1 /\ ext s0 s1 /\ Forall (valid (table s1)) a' /\ map (unfold s1) a' = map (unfold_tb src) l).
+  { clear - IH. induction l as [|x r IHr]; intros s0 s1 a' I0 Fc H.
+    - inversion H; subst. split; [auto|]. split; [apply ext_refl|]. split; [constructor|reflexivity].
+    - rewrite norm_list_cons in H. unfold bind in H.
+      destruct (norm_list f addr src r s0) as [sr [rs|e]] eqn:Lr; [|discriminate].
+      destruct (norm_fuel f addr src x sr) as [sx [x'|e]] eqn:Lx; [|discriminate]. inversion H; subst.
+      cbn [map] in Fc. inversion Fc as [|? ? Cx Cr]; subst.
+      destruct (IHr _ _ _ I0 Cr Lr) as (Ir & Xr & Vr & Mr).
+      destruct (IH _ _ _ _ Ir Lx Cx) as (Ix & Xx & Vx & Ux).
+      split; [exact Ix|]. split; [eapply ext_trans; eauto|]. split.
+      + constructor; [exact Vx|]. eapply Forall_valid_ext; eauto.
+      + cbn [map]. rewrite Ux. f_equal. rewrite <- Mr. apply map_unfold_ext; auto. }
+  destruct (G _ _ _ _ I Fc L) as (I1 & X1 & V1 & M1).
+  rewrite <- M1 in N. destruct (rebuild_copy _ _ _ _ _ _ I1 V1 N H) as (I' & X' & Vj & U).
+  split; [exact I'|]. split; [eapply ext_trans; eauto|]. split; [exact Vj|]. rewrite U, M1. reflexivity.
+Qed.
+
+(* every id reachable from a valid id through children lists is in the table *)
+Inductive reach (tb : list content) : id -> id -> Prop :=
+| reach_refl i : reach tb i i
+| reach_child i o args c k : node_tb tb i = Some (o, args) -> In c args -> reach tb c k -> reach tb i k.
+Lemma reach_valid tb i k : wf_tb tb -> reach tb i k -> valid tb i -> valid tb k.
+Proof.
+  intros W R. induction R as [i|i o args c k E Hin R IH]; intros V; [exact V|].
+  apply IH. pose proof (wf_children _ _ _ _ W E) as C. rewrite Forall_forall in C. specialize (C c Hin).
+  destruct V. unfold valid. lia.
+Qed.
+
+(* re-creating a formula of environment s1 inside environment s2: when normalize returns, the
+   node it returns stands for the same tree (sorts included: tnorm_total), it and every node
+   under it belong to s2's table, nothing that existed in s2 changed.  [copyable]: array-value
+   free, every node a fixed point of its constructor's normalisation. *)
+Theorem normalize_copy addr s1 s2 i s2' j : reachable s1 -> reachable s2 ->
+  normalize addr (table s1) i s2 = (s2', Ok j) -> copyable (unfold s1 i) ->
+  unfold s2' j = unfold s1 i /\
+  (forall k, reach (table s2') j k -> valid (table s2') k) /\
+  (forall k, valid (table s2) k -> unfold s2' k = unfold s2 k) /\ Inv s2'.
+Proof.
+  intros R1 R2 H C. apply reachable_inv in R1. apply reachable_inv in R2.
+  destruct (norm_copy addr (table s1) (inv_wf _ R1) _ _ _ _ _ R2 H C) as (I' & X & Vj & U).
+  split; [exact U|]. split; [|split; [|exact I']].
+  - intros k Rk. eapply reach_valid; eauto. apply (inv_wf _ I').
+  - intros k Vk. apply unfold_ext; auto.
+Qed.
+
+(* normalize is total on symbols of ANY sort (nested parametric sorts included) unless the
+   target environment already uses the name *)
+Theorem normalize_symbol_total addr src s2 i n t : reachable s2 ->
+  node_tb src i = Some (OSymbol n t, []) -> n <> ""%string -> sym_get n (symbols s2) = None ->
+  exists s2' j, normalize addr src i s2 = (s2', Ok j) /\ unfold s2' j = TSym n t /\ valid (table s2') j.
+Proof.
+  intros R E Hn G. apply reachable_inv in R. unfold normalize.
+  destruct i as [|k]; [discriminate|]. rewrite norm_fuel_S, E.
+  change (norm_list k addr src [] ) with (@ret (list id) []). unfold bind, ret.
+  change (rebuild addr (OSymbol n t) [] s2) with (symbol n t s2). unfold symbol. rewrite G.
+  destruct (String.eqb n "") eqn:En; [apply String.eqb_eq in En; contradiction|].
+  destruct (create_leaf s2 (OSymbol n t) R) as (s1 & j & Cn & I1 & X1 & N1); [cbn; discriminate|].
+  unfold bind. rewrite Cn. eexists _, j. split; [reflexivity|]. cbn [table set_symbols].
+  split; [apply (unfold_leaf s1); auto|eapply node_tb_valid; eauto].
+Qed.
+
+(* the former failing history: Symbol("x", P{Q{Int}}) is copied; a formula over it too *)
+Example normalize_nested_example :
+  let h := [(0, RSymbol "x" (TUser "P" [TUser "Q" [TInt]])); (0, RSymbol "y" (TUser "P" [TUser "Q" [TInt]]));
+            (0, RCtor (CNode OEquals) [3; 4] []); (1, RNormalize 0 5)] in
+  let '(w, rps) := wrun addr_id (winit 2) h in
+  last rps (Err EOth) = Ok 5 /\ unfold (nth 1 w init) 5 = unfold (nth 0 w init) 5 /\
+  copyable (unfold (nth 0 w init) 5).
+Proof.
+  vm_compute. split; [reflexivity|]. split; [reflexivity|].
+  repeat (constructor; try reflexivity).
+Qed.
+
+(* executable form of [copyable] (used by the correspondence to check that the formulas the
+   implementation's constructors build satisfy the hypothesis of normalize_copy) *)
+Fixpoint copyableb (t : term) : bool :=
+  match t with T o args => nf_nodeb o args && forallb copyableb args end.
+Lemma copyableb_sound : forall t, copyableb t = true -> copyable t.
+Proof.
+  induction t as [o args IH] using term_ind'. cbn [copyableb]. rewrite andb_true_iff. intros [N F].
+  constructor; [exact N|]. rewrite forallb_forall in F. rewrite Forall_forall in *. auto.
+Qed.
+Fixpoint array_free (t : term) : bool :=
+  match t with
+  | T o args => match o with OArrayValue _ => false | _ => true end && forallb array_free args
+  end.
